@@ -25,13 +25,13 @@ ASSUMPTIONS = [
     "tolerances: covariance 1e-2 (linear) / 5e-2 (nonlinear) sigma_i sigma_j; profile points 1e-3 (+1 % of the rise); rise at asymmetric errors 1 +- 2e-2; contour rise n^2 +- 15 % (MNCONTOUR and grid contours locate points to a few per cent; measured worst 4.5 %); band 1e-2",
     "no parameter rests on a limit (the statement excludes it)",
 ]
-LINEAR = {"lin-y", "quad-con", "idx3-cov"}
-PROBS_QUICK = ["lin-y", "quad-con", "idx3-cov", "exp-y", "exp-xy", "exp-fixed", "exp-relm", "sinus-y", "peak-fix13", "hist-nll", "unbinned-nll"]
+LINEAR = {"lin-y", "lin-xhz", "quad-con", "idx3-cov"}
+PROBS_QUICK = ["lin-y", "lin-xhz", "quad-con", "idx3-cov", "exp-y", "exp-xy", "exp-fixed", "exp-relm", "sinus-y", "peak-fix13", "hist-nll", "unbinned-nll"]
 PROBS_ALL = PROBS_QUICK + ["exp-xy-relm", "pow-y", "peak-fixed", "logistic-xy", "exp-lim", "hist-nllg"]
 
 
 def make(name, v, backend):
-    if name in problems.PROBLEMS:
+    if name in problems.PROBLEMS or name == "lin-xhz":
         return problems.make(name, v=v, minimizer=backend)
     if name == "unbinned-nll":
         w = FitWorld("unbinned", "nll", model="normal", v=v, minimizer=backend)
@@ -113,7 +113,14 @@ def check(name, backend, v, parts, res=None):
     tolC = 1e-2 if name in LINEAR else 5e-2
     nev = 0
     fmin = ref_profile(w, free, {}, None)
-    if "cov" in parts:
+    if "cov-after-profile" in parts:
+        # the same definitions must hold after a query that saves and restores the minimiser state
+        with warnings.catch_warnings():
+            warnings.simplefilter("ignore")
+            ContoursProfiler(f, profile_points=5).get_profile(free[0])
+        C = np.asarray(f.parameter_cov_mat, dtype=float)
+        errs = np.asarray(f.parameter_errors, dtype=float)
+    if "cov" in parts or "cov-after-profile" in parts:
         H = ref_hessian(w, free, sig)
         Cref = 2.0 * np.linalg.inv(H)
         sr = np.sqrt(np.diag(Cref))
@@ -211,7 +218,7 @@ def check(name, backend, v, parts, res=None):
     return out, nev, w
 
 
-PARTS = ["cov", "profile", "asym", "contour", "band"]
+PARTS = ["cov", "cov-after-profile", "profile", "asym", "contour", "band"]
 
 
 def jobs(tier, seed):
@@ -221,6 +228,8 @@ def jobs(tier, seed):
         for name in PROBS_QUICK if tier == "quick" else PROBS_ALL:
             for backend in ("iminuit", "scipy"):
                 for part in PARTS:
+                    if name == "lin-xhz" and part not in ("cov", "band"):
+                        continue  # badly scaled on purpose (slope ~1e-6): only the covariance and the band are judged on it
                     if backend == "scipy" and part == "contour" and (tier == "quick" or name not in ("lin-y", "exp-y", "exp-xy")):
                         continue
                     if backend == "scipy" and part in ("profile", "asym") and tier == "quick" and name not in ("lin-y", "exp-xy", "exp-fixed"):
